@@ -200,6 +200,24 @@ func c12leveled(c *Ctx, fn *ssa.Function) {
 		}
 		r.Check(len(bad) == 0, "ATOMIC", key+"/one-critical-section", c.Pos(fn.Pos()), sprintf("%d write/cache sites run under LeveledUpdateLock", len(sites)), "these steps of the leveled update run without LeveledUpdateLock: "+strings.Join(bad, ", ")+" - another batch can run completely between this batch's merge pass and its exact pass, leaving a child above its parent")
 	}
+	r.Rule("PATH(cache follows the file): in LeveledUpdateBatch, from behind a successful update() (and a successful MergeUpdate()) the next updater is not reached, and the function does not return, without ResourceCache.SetDefault(..): needUpdate() decides from the cache whether a file is rewritten, so a write that is not cached leaves the cache describing an older content")
+	for _, w := range []ssa.CallInstruction{merges[0], updates[0]} {
+		f := an.Facts{}
+		if v := w.Value(); v != nil {
+			if e := extract(v, 1); e != nil {
+				f[e] = an.Nil
+			} else if isErrorType(v.Type()) {
+				f[v] = an.Nil
+			}
+		}
+		hdr := an.InnermostLoopHeader(w.Block())
+		reach := an.Explore(fn, an.After(w), f, func(in ssa.Instruction) bool {
+			cl, ok := in.(ssa.CallInstruction)
+			return ok && (an.ShortCallee(cl.Common()) == "SetDefault" || an.ShortCallee(cl.Common()) == "Set")
+		})
+		ok := len(reach.Returns()) == 0 && (hdr == nil || !reach.BlockReached(hdr))
+		r.Check(ok && len(f) == 1, "PATH", key+"/"+w.Common().Method.Name()+"=>cached", c.InstrPos(w), "a successful write is recorded in the cache", "after a successful "+w.Common().Method.Name()+"() the loop can go on (or the function return) without ResourceCache.SetDefault: the cache keeps the value of the merge pass (the old value on a shrink, the union on a cpuset shift), and a later rewrite to exactly that value is skipped as 'unchanged'")
+	}
 	r.Rule("PATH: MergeUpdate() and update() in LeveledUpdateBatch are dominated by needUpdate(updater)==true")
 	for _, cl := range []ssa.CallInstruction{merges[0], updates[0]} {
 		ok := an.GuardCall(an.Guards(cl), true, func(cc *ssa.CallCommon) bool { return an.ShortCallee(cc) == "needUpdate" })
